@@ -112,7 +112,8 @@ NEEDED_PLAN = [
     "plan_jobs_morx_lig_components_2", "plan_jobs_morx_lig_components_3", "plan_jobs_morx_lig_components_4",
     "plan_jobs_morx_lig_pattern_L", "plan_jobs_morx_lig_pattern_LS", "plan_jobs_morx_lig_pattern_SM",
     "plan_jobs_morx_lig_pattern_SA", "plan_jobs_morx_lig_pattern_N", "plan_jobs_morx_lig_pattern_NS",
-    "plan_jobs_morx_lig_action_entry_dont_advance", "plan_jobs_morx_lig_failure_dont_advance",
+    "plan_jobs_morx_lig_action_entry_dont_advance", "plan_jobs_morx_lig_component_pushed_through_dont_advance",
+    "plan_jobs_morx_lig_failure_dont_advance",
     "plan_jobs_morx_lig_skipped_class", "plan_jobs_morx_action_list_without_last",
     "plan_jobs_morx_ligature_at_start", "plan_jobs_morx_ligature_in_middle", "plan_jobs_morx_ligature_at_end",
     "plan_jobs_morx_ligature_at_end_dont_advance", "plan_jobs_morx_ligature_whole_text",
@@ -466,8 +467,10 @@ def replay(ctx, path):
     p = subprocess.run([binp, "exec", json.dumps(a)], cwd=vlib.VERIF, env=env, stdout=subprocess.PIPE,
                        stderr=subprocess.PIPE, text=True, timeout=600)
     lines = [l for l in p.stdout.splitlines() if l.startswith("{")]
-    if p.returncode != 0 or not lines:
-        print("REPRODUCED (process died, exit %s): %s" % (p.returncode, p.stderr[-500:]))
+    # exit 75: the watchdog has printed the Timeout event of the job; anything else without an event: the process died
+    if (p.returncode not in (0, 75)) or not lines:
+        print("REPRODUCED key=%s (the process died in Font::shape, exit %s): %s"
+              % (json.load(open(path)).get("key"), p.returncode, p.stderr.strip()[-300:].replace("\n", " ")))
         return 1
     ev = json.loads(lines[-1])
     trace = ctx.path("one.ndjson")
